@@ -90,7 +90,12 @@ def run_program(env, mon, shape, sorts, Interrupt, initial_time=0, delays=None):
 
 def h_prog(cfg):
     Environment, Interrupt = _imports()
-    env = Environment()
+    if cfg.get('tau'):
+        tau = sym_num('tau', 'real' if cfg['sorts'] == 'real' else 'int')     # any sign
+        env = Environment(initial_time=tau)
+        cover('initial-time')
+    else:
+        env = Environment()
     mon = Monitor(env)
     run_program(env, mon, cfg['shape'], cfg['sorts'], Interrupt)
     try:
@@ -205,6 +210,9 @@ def jobs(tier, seed):
         if si % 2 == 0:
             js.append({'harness': 'prog', 'cfg': {'shape': sh, 'sorts': sortss[si % 3], 'until': 2},
                        'weight': 4 ** nT, 'opts': {'max_seconds': 60 if tier == 'quick' else 300}})
+    for si, sh in enumerate(CORE_SHAPES[:6]):
+        js.append({'harness': 'prog', 'cfg': {'shape': sh, 'sorts': ('int', 'real')[si % 2], 'until': None, 'tau': True},
+                   'weight': 50})
     for sorts in ['int', 'real', 'mixed']:
         js.append({'harness': 'negdelay', 'cfg': {'sorts': sorts}, 'weight': 1})
     return js
@@ -215,7 +223,7 @@ META = {
             'shape; non-trivial = the program triggered at least two occurrences, or a negative delay was refused',
     'required_labels': ['c01.time', 'c01.order', 'c01.once', 'c01.monotonic', 'c01.all-seen',
                         'c01.neg-refused-only-if-negative', 'c01.until-now'],
-    'required_covers': ['nontrivial', 'interrupt-delivered', 'until-stop', 'neg-refused'],
+    'required_covers': ['nontrivial', 'interrupt-delivered', 'until-stop', 'neg-refused', 'initial-time'],
     'bounds': {
         'quick': 'program shapes: 11 core + 45 seeded random, <= 3 processes, <= 5 timeouts (<= 8 instructions) per program; '
                  'delays unbounded (>= 0) Int / Real / mixed; until-stop at the concrete instant 2',
